@@ -213,10 +213,18 @@ def run_case(case):
             text, info = docgen.render_block(rng, m, {'split_anns': False})
             lines = text.split('\n')
             li = 1 + info['params'][victim['name']]
-            fault = rng.choice(['((', '(()', ')', '(transfer full', '(nullable))'])
-            lines[li] = lines[li].replace('(transfer full)', fault if fault != ')' else '(transfer full))', 1)
-            text = '\n'.join(lines)
-            expect_reject = (victim['name'], li, [p['name'] for p in m['params'] if p is not victim])
+            if rng.random() < 0.4 and '\n' not in lines[li]:
+                # the fault sits on a continuation line of the annotations, after a well-formed one: the first line's
+                # annotations stay, nothing of the faulty line may be applied
+                lines[li] = ' * @%s: (transfer full)' % victim['name']
+                lines.insert(li + 1, ' *   %s %s' % (rng.choice(['(nullable)', '(allow-none)', '(out)']), rng.choice(['(out', '()', '((optional))', '(inout))'])))
+                text = '\n'.join(lines)
+                expect_reject = (victim['name'], li + 1, [p['name'] for p in m['params'] if p is not victim], {'transfer': ['full']})
+            else:
+                fault = rng.choice(['((', '(()', ')', '(transfer full', '(nullable))'])
+                lines[li] = lines[li].replace('(transfer full)', fault if fault != ')' else '(transfer full))', 1)
+                text = '\n'.join(lines)
+                expect_reject = (victim['name'], li, [p['name'] for p in m['params'] if p is not victim], {})
             hostile.append(text)
     if mode == 'sweep':
         m = docgen.gen_block(rng, strict=True)
@@ -283,7 +291,7 @@ def run_case(case):
         check_events(h, filename, 200, hev, res, mode)
         # (3) no half-application
         if expect_reject:
-            vname, li, others = expect_reject
+            vname, li, others, kept = expect_reject
             b = blocks.get('hostile_fn')
             ign = [e for e in hev if 'will be ignored' in e['text']]
             res['hits']['reject_checked'] += 1
@@ -291,8 +299,9 @@ def run_case(case):
                 res['viol'].append(('reject-silent', 'malformed annotation field produced no "ignored" diagnostic', h))
             elif ign[0]['positions'][-1][1] != 200 + li:
                 res['viol'].append(('reject-line', '"ignored" diagnostic at line %r, fault is on line %d' % (ign[0]['positions'][-1][1], 200 + li), h))
-            if b is not None and vname in b.params and len(b.params[vname].annotations):
-                res['viol'].append(('half-applied', 'parameter @%s kept annotations %r from a rejected field' % (vname, dict(b.params[vname].annotations)), h))
+            if b is not None and vname in b.params and {k: list(v) if isinstance(v, list) else v for k, v in b.params[vname].annotations.items()} != kept:
+                res['viol'].append(('half-applied', 'parameter @%s has annotations %r after a rejected field, expected %r' % (vname, dict(b.params[vname].annotations), kept), h))
+            res['hits']['reject_checked:continuation' if kept else 'reject_checked:same-line'] += 1
             if b is not None:
                 for o in others:
                     if o not in b.params:
